@@ -1837,7 +1837,16 @@ def remove_redundant_reshape_pairs_ir(graph: ir.Graph) -> None:
             safe_chain = True
 
             t1_out = _node_output(T1)
-            if t1_out is not None:
+            # Values between the two Reshapes change shape (or disappear) when the
+            # pair is folded, so none of them may be a model output.
+            if t1_out is not None and t1_out.is_graph_output():
+                safe_chain = False
+            for node in allowed_fwd:
+                node_out = _node_output(node)
+                if node_out is not None and node_out.is_graph_output():
+                    safe_chain = False
+
+            if safe_chain and t1_out is not None:
                 for consumer in _consumer_nodes(nodes, t1_out):
                     if consumer in chain_nodes or consumer is T2:
                         continue
